@@ -450,7 +450,13 @@ def run(prop, tier, seed, replay, t0):
     }
     os.makedirs(os.path.join(VERIF, "evidence"), exist_ok=True)
     if not replay:
-        json.dump(ev, open(os.path.join(VERIF, "evidence", "%s.json" % prop), "w"), indent=1, default=str)
+        ev_dir = os.path.join(VERIF, "evidence")
+        alt = os.environ.get("VERIF_REPO")
+        if alt and os.path.realpath(alt) != os.path.realpath("/repo"):
+            # a run against another tree (seeded-change evaluation) must not overwrite the evidence of /repo
+            ev_dir = os.path.join(VERIF, "replays", "evidence_alt")
+            os.makedirs(ev_dir, exist_ok=True)
+        json.dump(ev, open(os.path.join(ev_dir, "%s.json" % prop), "w"), indent=1, default=str)
     print("%s %s tier=%s seed=%d cases=%d nontrivial=%d theorems=%d/%d wall=%.1fs" % (
         "OK" if rc == 0 else "FAIL", prop, tier, seed, n_eval, len(keys), discharged, len(theorems), time.time() - t0))
     return rc
